@@ -915,7 +915,11 @@ def ignore_cases(draw, tier):
     leaves = draw(st.sampled_from([['w'], ['w', 'b'], ['b', 'w'], ['w', 'b', 's'], ['s']]))
     modules.append({'name': ['lin', 'lin/~/sub', 'emb'][j], 'leaves': leaves})
   pairs = [[m['name'], n] for m in modules for n in m['leaves']]
-  ignore = draw(st.lists(st.sampled_from(pairs), min_size=0, max_size=len(pairs), unique_by=tuple))
+  mode = draw(st.sampled_from(['some', 'some', 'some', 'some', 'none', 'all']))
+  ignore = [p for p in pairs
+            if mode == 'all' or (mode == 'some' and draw(st.booleans()))]
+  if draw(st.booleans()):
+    ignore = ignore[::-1]
   ign = {tuple(p) for p in ignore}
 
   def values(special):
